@@ -4,10 +4,9 @@
 From Verif Require Import Base.Str Gen.Lits.
 Open Scope N_scope.
 
-(* regex/operators/assembler.go func Operator_dontUseFlagsForMetaCharacters: \(\?[-misU]+\) |  | \(\?[-misU]+: | #0 | #0 | #0 | #1 | #1 *)
+(* regex/operators/assembler.go func Operator_dontUseFlagsForMetaCharacters: \(\?[-misU]+\) | \(\?[-misU]+: | #0 | #0 | #0 | #1 | #1 *)
 Lemma pinned : Gen.Lits.lits_regex_operators_assembler_Operator_dontUseFlagsForMetaCharacters =
   [[92; 40; 92; 63; 91; 45; 109; 105; 115; 85; 93; 43; 92; 41];
-    [];
     [92; 40; 92; 63; 91; 45; 109; 105; 115; 85; 93; 43; 58];
     [35; 48];
     [35; 48];
